@@ -91,6 +91,7 @@ func doCall(sess erpc.Session, method string, body []byte, codecID byte, metas [
 
 // c19: proxied result == direct result.
 func c19(p Params) func() {
+	proto := p.Get("proto", "raw")
 	return func() {
 		begin()
 		kinds := []string{"call", "push"}
@@ -119,7 +120,7 @@ func c19(p Params) func() {
 		ref := newC19backend("json")
 		ref.status = bstat
 		refCli := world.NewPeer("json")
-		rcs, _, _ := world.Connect(refCli, ref.peer, nil)
+		rcs, _, _ := world.Connect(refCli, ref.peer, world.Proto(proto))
 
 		// proxied: client -> proxy -> backend
 		be := newC19backend("json")
@@ -128,10 +129,10 @@ func c19(p Params) func() {
 		px := world.NewPeer("json", proxy.NewPlugin(func(*proxy.Label) proxy.Forwarder { return toBackend }))
 		var link *world.Link
 		var beSide erpc.Session
-		toBackend, beSide, link = world.Connect(px, be.peer, nil)
+		toBackend, beSide, link = world.Connect(px, be.peer, world.Proto(proto))
 		be.breakLink = func() { link.A.Break() }
 		cli := world.NewPeer("json")
-		cs, _, _ := world.Connect(cli, px, nil)
+		cs, _, _ := world.Connect(cli, px, world.Proto(proto))
 		cliAddr := cs.LocalAddr().String()
 
 		name := func(b *c19backend) string {
@@ -223,17 +224,18 @@ func c19(p Params) func() {
 // and buffers carry nothing from one forwarded message to the next).
 func c19Seq(p Params) func() {
 	depth := p.Int("depth", 3)
+	proto := p.Get("proto", "raw")
 	return func() {
 		begin()
 		ref := newC19backend("json")
 		refCli := world.NewPeer("json")
-		rcs, _, _ := world.Connect(refCli, ref.peer, nil)
+		rcs, _, _ := world.Connect(refCli, ref.peer, world.Proto(proto))
 		be := newC19backend("json")
 		var toBackend erpc.Session
 		px := world.NewPeer("json", proxy.NewPlugin(func(*proxy.Label) proxy.Forwarder { return toBackend }))
-		toBackend, _, _ = world.Connect(px, be.peer, nil)
+		toBackend, _, _ = world.Connect(px, be.peer, world.Proto(proto))
 		cli := world.NewPeer("json")
-		cs, _, _ := world.Connect(cli, px, nil)
+		cs, _, _ := world.Connect(cli, px, world.Proto(proto))
 		bodies := []string{`"hello"`, ``, strings.Repeat("b", 300)}
 		hist := ""
 		for i := 0; i < depth; i++ {
